@@ -350,8 +350,44 @@ def g4(prog, ctx, chain):
     ctx.floor("C06.G4 propagation sites", sites, 7)
 
 
+def g1b_g2b(prog, ctx, gate):
+    """G1b every object that enters the history went through the gate (no other way to add a "file" to the list: a masking entry
+    made up without reading is a file the callback was never asked about).   G2b the gate - and with it the callback - is given
+    the name the file was found under, not a resolved one (= C16.X4)."""
+    from rules import C16
+    before = len(ctx.obs)
+    C16.x4_callers(prog, ctx, gate)
+    for ob in ctx.obs[before:]:
+        if ob.rule == "X4":
+            ob.rule = "G2"
+    n = 0
+    for fname in ("check_conf_dir", "readConfigHistoryWithCallback"):
+        if not prog.has_fn(fname):
+            continue
+        f = prog.fn(fname)
+        cfg = f.cfg
+        gcalls = f.calls(gate.name)
+        for lhs, rhs, st, kind in query.stores(f):
+            if kind != "=" or rhs is None or not render(lhs).startswith("(*key_files)[") or rhs.is_null_const():
+                continue
+            n += 1
+            inst = "%s: `%s` stores an object that passed the gate" % (fname, render(st)[:50])
+            blocks = set(cfg.block_of(c) for c in gcalls)
+            succ = {(b, i): s2 for (b, i, s2) in cfg.edges()}
+            ok, cut = cfg.all_paths_cut(cfg.block_of(st), lambda lit, b, i: succ.get((b, i)) in blocks or b in blocks)
+            if gcalls and ok and cut:
+                ctx.ok("G1", inst, st.where, "every consistent path to the store passes %s()" % gate.name)
+            else:
+                ctx.fail("G1", inst, st.where,
+                         "an object can be put into the history without %s() having been called for it: that file takes part in the result (it masks "
+                         "same-named files of lower layers) although neither the callback nor the restrictions ever saw it" % gate.name,
+                         key="history-entry-ungated:%s" % fname)
+    ctx.counts["G1b history appends"] = n
+
+
 def run(prog, ctx):
     gate, parser = common.choke_point(prog, ctx, "G1")
+    g1b_g2b(prog, ctx, gate)
     chain = chain_functions(prog)
     if common.GATE not in chain:
         raise Inconclusive("the gate has no callback parameters")
